@@ -1,4 +1,5 @@
 import SqlObjVerif.Lemmas.Hub
+import SqlObjVerif.Lemmas.HubX
 /-!
 # C08 — `doInTransaction` is all-or-nothing, re-raises the same exception, always restores the hub
 
@@ -203,5 +204,44 @@ example : (doInTx w0 1 ⟨[.updateInst 1 200, .deleteInst 2, .create 3 30], some
   decide
 example : ((doInTx w0 1 ⟨[.updateInst 1 200, .deleteInst 2], none, 7⟩).1.db 1,
            (doInTx w0 1 ⟨[.updateInst 1 200, .deleteInst 2], none, 7⟩).1.db 2) = (some 200, none) := by decide
+
+/-! ## The hand model of `doInTransaction` IS the translated source
+
+`vlib/extractors/pytx.py` translates `ConnectionHub.doInTransaction` from /repo's dbconnection.py into a PyTx
+program on every run (`Extracted/PyTx.lean`); `doInTransactionX tid b` (`Model/HubX.lean`) RUNS that program from
+thread `tid` with body `b`.  `rep w` is the image of a hand-model world (the view of the transaction the call opens
+is added), `abs` forgets that view again, `absRes` reads the way the call ended (value / exception, an
+AttributeError being the model's "no connection").  The calls into other objects are parameters of the
+interpreter, fixed in `Model/HubX.lean` (header: thread-local / process attribute, `transaction()`,
+`func(*args, **kw)` = `runBody` through the hub as it is at that moment, `commit(close=True)`, `rollback()`).
+A semantic edit of `doInTransaction` (restore only on success, commit in the `except` branch, another rule for the
+level, a lost `close=True`, …) changes the translated program and breaks this proof; renaming a local does not. -/
+
+/-- `ConnectionHub.doInTransaction` = `doInTx`: from the image of EVERY world, for every calling thread and every body
+    — no binding (AttributeError), thread-level or process-level binding; body returns, raises an `Exception`
+    subclass (rolled back, re-raised), raises a BaseException-only exception (not caught, hub restored, the
+    transaction left open) — provided the binding is not already a transaction (outside the hand model) -/
+theorem C08_translated_doInTransaction_eq_model (w : World) (tid : Nat) (b : Body)
+    (hn : ∀ lvl c, w.hub.resolve tid ≠ some (lvl, .tx c)) :
+    absRes (doInTransactionX tid b (rep w)) = some (doInTx w tid b) :=
+  doInTransactionX_eq w tid b hn
+
+/-- C08 stated about the TRANSLATED program: all-or-nothing, the same exception, the hub exactly as before -/
+theorem C08_translated_doInTransaction_atomic_restores (w : World) (tid : Nat) (b : Body) (lvl : Level) (c : Nat)
+    (hres : w.hub.resolve tid = some (lvl, .base c)) :
+    ∃ w' out, absRes (doInTransactionX tid b (rep w)) = some (w', out) ∧ w'.hub = w.hub ∧
+      (match specRun w.db b with
+       | .ok v' => out = .returned b.ret ∧ w'.db = v'
+       | .error e => out = .raised e ∧ w'.db = w.db) := by
+  refine ⟨(doInTx w tid b).1, (doInTx w tid b).2, ?_, ?_, ?_⟩
+  · exact doInTransactionX_eq w tid b (fun l c' h => by rw [hres] at h; cases h)
+  · exact (C08_doInTransaction_atomic_restores w tid b lvl c hres).2.1
+  · exact (C08_doInTransaction_atomic_restores w tid b lvl c hres).1
+
+/-- non-vacuity: the hypothesis holds for the threads of `w0` -/
+example : ∀ lvl c, w0.hub.resolve 1 ≠ some (lvl, .tx c) := by
+  intro lvl c h; simp [w0, Hub.resolve] at h
+example : ∀ lvl c, w0.hub.resolve 0 ≠ some (lvl, .tx c) := by
+  intro lvl c h; simp [w0, Hub.resolve] at h
 
 end SqlObjVerif.Hub
